@@ -1,6 +1,7 @@
 import PbVerif.Model.Banded
 /-! Helper lemmas for C11 (proofs): clamp invariance of the table interpreter and of the D'D
 specification, the windowed-sum lemma, layout conversions, the reconfiguration invariant. -/
+set_option linter.unusedVariables false
 namespace PbVerif.Lemmas
 open PbVerif.Banded
 
@@ -10,28 +11,392 @@ def fdiffIter : Nat → (Nat → Int) → (Nat → Int)
   | 0, f => f
   | d+1, f => fdiffIter d (fdiff f)
 
+/-! ### sums over `List.range` -/
+def rsum (N : Nat) (f : Nat → Int) : Int := ((List.range N).map f).sum
+
+theorem rsum_zero (f : Nat → Int) : rsum 0 f = 0 := rfl
+theorem rsum_succ (N : Nat) (f : Nat → Int) : rsum (N+1) f = rsum N f + f N := by
+  simp [rsum, List.range_succ]
+theorem rsum_succ' (N : Nat) (f : Nat → Int) : rsum (N+1) f = f 0 + rsum N (fun m => f (m+1)) := by
+  simp [rsum, List.range_succ_eq_map, List.map_map, Function.comp_def]
+theorem rsum_congr {N : Nat} {f g : Nat → Int} (h : ∀ m, m < N → f m = g m) : rsum N f = rsum N g := by
+  unfold rsum
+  congr 1
+  apply List.map_congr_left
+  intro m hm
+  exact h m (List.mem_range.mp hm)
+theorem rsum_eq_zero {N : Nat} {f : Nat → Int} (h : ∀ m, m < N → f m = 0) : rsum N f = 0 := by
+  induction N with
+  | zero => rfl
+  | succ N ih =>
+    rw [rsum_succ, ih (fun m hm => h m (by omega)), h N (by omega)]; rfl
+theorem rsum_add (N : Nat) (f g : Nat → Int) : rsum N (fun m => f m + g m) = rsum N f + rsum N g := by
+  induction N with
+  | zero => rfl
+  | succ N ih => rw [rsum_succ, rsum_succ, rsum_succ, ih]; omega
+theorem rsum_sub (N : Nat) (f g : Nat → Int) : rsum N (fun m => f m - g m) = rsum N f - rsum N g := by
+  induction N with
+  | zero => rfl
+  | succ N ih => rw [rsum_succ, rsum_succ, rsum_succ, ih]; omega
+theorem rsum_single (N j : Nat) (a : Int) (P : Nat → Prop) [DecidablePred P] (hj : j < N)
+    (hP : ∀ m, m < N → (P m ↔ m = j)) : rsum N (fun m => if P m then a else 0) = a := by
+  induction N with
+  | zero => omega
+  | succ N ih =>
+    rw [rsum_succ]
+    by_cases h : j = N
+    · subst h
+      rw [rsum_eq_zero, if_pos ((hP j (by omega)).mpr rfl)]; omega
+      intro m hm
+      rw [if_neg]
+      intro hp
+      have := (hP m (by omega)).mp hp
+      omega
+    · rw [ih (by omega) (fun m hm => hP m (by omega)), if_neg]; omega
+      intro hp
+      have := (hP N (by omega)).mp hp
+      omega
+
+theorem coef_eq_zero (d m : Nat) (h : d < m) : coef d m = 0 := by
+  induction d generalizing m with
+  | zero =>
+    cases m with
+    | zero => omega
+    | succ m => rfl
+  | succ d ih =>
+    cases m with
+    | zero => omega
+    | succ m =>
+      simp only [coef]
+      rw [ih m (by omega), ih (m+1) (by omega)]; rfl
+
 theorem fdiffIter_eq_coef (d : Nat) (f : Nat → Int) (k : Nat) :
-    fdiffIter d f k = ((List.range (d+1)).map fun m => coef d m * f (k + m)).sum := by sorry
+    fdiffIter d f k = ((List.range (d+1)).map fun m => coef d m * f (k + m)).sum := by
+  show _ = rsum (d+1) (fun m => coef d m * f (k + m))
+  induction d generalizing f with
+  | zero => simp [fdiffIter, rsum, coef]
+  | succ d ih =>
+    simp only [fdiffIter]
+    rw [ih (fdiff f), rsum_succ' (d+1)]
+    simp only [coef, fdiff]
+    have e1 : rsum (d+1) (fun m => coef d m * (f (k + m + 1) - f (k + m)))
+        = rsum (d+1) (fun m => coef d m * f (k + m + 1)) - rsum (d+1) (fun m => coef d m * f (k + m)) := by
+      rw [← rsum_sub]
+      apply rsum_congr
+      intro m _
+      rw [Int.mul_sub]
+    have e2 : rsum (d+1) (fun m => (coef d m - coef d (m+1)) * f (k + (m + 1)))
+        = rsum (d+1) (fun m => coef d m * f (k + m + 1)) - rsum (d+1) (fun m => coef d (m+1) * f (k + (m + 1))) := by
+      rw [← rsum_sub]
+      apply rsum_congr
+      intro m _
+      rw [Int.sub_mul]; rfl
+    have e3 : rsum (d+1) (fun m => coef d m * f (k + m))
+        = coef d 0 * f k + rsum (d+1) (fun m => coef d (m+1) * f (k + (m + 1))) := by
+      rw [rsum_succ' d, rsum_succ d (fun m => coef d (m+1) * f (k + (m + 1))), coef_eq_zero d (d+1) (by omega)]
+      simp
+    rw [e1, e2, e3]
+    simp only [Nat.add_zero, Int.neg_mul]
+    omega
 
-theorem diffCoefCode_eq (d : Nat) : diffCoefCode d = (List.range (d+1)).map (coef d) := by sorry
+/-! ### the coefficient loop of `difference_matrix` -/
 
-theorem dtdOff_eq_DtD (n d i t : Nat) (h : i + t < n) : dtdOff n d i t = DtD n d i (i + t) := by sorry
+theorem diffStep_map (L : Nat) (g : Nat → Int) :
+    diffStep ((List.range (L+1)).map g) = (List.range L).map (fun p => g p - g (p+1)) := by
+  unfold diffStep
+  apply List.ext_getElem?
+  intro p
+  by_cases hp : p < L
+  · simp [hp]
+  · rw [List.getElem?_eq_none (by simp; omega), List.getElem?_eq_none (by simp; omega)]
 
-theorem DtD_symm (n d i j : Nat) : DtD n d i j = DtD n d j i := by sorry
+theorem diffIter_succ' (j : Nat) (l : List Int) : diffIter (j+1) l = diffStep (diffIter j l) := by
+  induction j generalizing l with
+  | zero => rfl
+  | succ j ih =>
+    show diffIter (j+1) (diffStep l) = diffStep (diffIter j (diffStep l))
+    exact ih (diffStep l)
 
-theorem DtD_band (n d i j : Nat) (h : i + d < j) : DtD n d i j = 0 := by sorry
+/-- entry p of the coefficient vector after j steps -/
+def iterEnt (d j p : Nat) : Int := if d ≤ p + j ∧ p ≤ d then coef j (p + j - d) else 0
+
+theorem iterEnt_step (d j p : Nat) : iterEnt d (j+1) p = iterEnt d j p - iterEnt d j (p+1) := by
+  unfold iterEnt
+  by_cases h1 : d ≤ p + (j + 1) ∧ p ≤ d
+  · rw [if_pos h1]
+    by_cases h2 : p + j + 1 = d
+    · rw [if_neg (by omega), if_pos (by omega)]
+      have e1 : p + (j + 1) - d = 0 := by omega
+      have e2 : p + 1 + j - d = 0 := by omega
+      rw [e1, e2]; simp [coef]
+    · have e1 : p + (j + 1) - d = (p + j - d) + 1 := by omega
+      rw [if_pos (by omega), e1]
+      simp only [coef]
+      by_cases h3 : p + 1 ≤ d
+      · have e2 : p + 1 + j - d = p + j - d + 1 := by omega
+        rw [if_pos (by omega), e2]
+      · rw [if_neg (by omega), coef_eq_zero j (p + j - d + 1) (by omega)]
+  · rw [if_neg h1]
+    by_cases h2 : d < p
+    · rw [if_neg (by omega), if_neg (by omega)]; rfl
+    · rw [if_neg (by omega), if_neg (by omega)]; rfl
+
+theorem unit_eq (d : Nat) :
+    (List.replicate d 0) ++ [1] ++ (List.replicate d 0) = (List.range (2*d+1)).map (iterEnt d 0) := by
+  apply List.ext_getElem?
+  intro p
+  by_cases hp : p < 2 * d + 1
+  · rw [List.getElem?_map, List.getElem?_range hp]
+    unfold iterEnt
+    by_cases h1 : p < d
+    · rw [List.getElem?_append_left (by simp; omega), List.getElem?_append_left (by simp; omega)]
+      simp [h1]; omega
+    · by_cases h2 : p = d
+      · subst h2
+        rw [List.getElem?_append_left (by simp), List.getElem?_append_right (by simp)]
+        simp [coef]
+      · rw [List.getElem?_append_right (by simp; omega)]
+        simp [List.getElem?_replicate]
+        constructor <;> omega
+  · rw [List.getElem?_eq_none (by simp; omega), List.getElem?_eq_none (by simp; omega)]
+
+theorem diffIter_unit (d j : Nat) (hj : j ≤ d) :
+    diffIter j ((List.replicate d 0) ++ [1] ++ (List.replicate d 0))
+      = (List.range (2*d+1-j)).map (iterEnt d j) := by
+  induction j with
+  | zero => exact unit_eq d
+  | succ j ih =>
+    rw [diffIter_succ', ih (by omega)]
+    have e : 2 * d + 1 - j = (2 * d + 1 - (j + 1)) + 1 := by omega
+    rw [e, diffStep_map]
+    apply List.map_congr_left
+    intro p _
+    exact (iterEnt_step d j p).symm
+
+theorem diffCoefCode_eq (d : Nat) : diffCoefCode d = (List.range (d+1)).map (coef d) := by
+  unfold diffCoefCode
+  rw [diffIter_unit d d (Nat.le_refl d)]
+  have e : 2 * d + 1 - d = d + 1 := by omega
+  rw [e]
+  apply List.map_congr_left
+  intro p hp
+  have := List.mem_range.mp hp
+  unfold iterEnt
+  rw [if_pos (by omega)]
+  congr 1; omega
+
+/-! ### D'D: windowed sum, symmetry, bandwidth -/
+
+/-- windowed sum: a summand supported on `k ≤ i ≤ k + d` can be re-indexed by `m = i - k ≤ d` -/
+theorem rsum_window (N d i : Nat) (F : Nat → Int) (hF : ∀ k, ¬ (k ≤ i ∧ i ≤ k + d) → F k = 0) :
+    rsum N F = rsum (d+1) (fun m => if m ≤ i ∧ i - m < N then F (i - m) else 0) := by
+  induction N with
+  | zero =>
+    rw [rsum_zero, rsum_eq_zero]
+    intro m _
+    rw [if_neg (by omega)]
+  | succ N ih =>
+    rw [rsum_succ, ih]
+    have e : rsum (d+1) (fun m => if m ≤ i ∧ i - m < N + 1 then F (i - m) else 0)
+        = rsum (d+1) (fun m => (if m ≤ i ∧ i - m < N then F (i - m) else 0)
+            + (if m ≤ i ∧ i - m = N then F N else 0)) := by
+      apply rsum_congr
+      intro m _
+      by_cases h1 : m ≤ i ∧ i - m < N
+      · rw [if_pos h1, if_pos (by omega), if_neg (by omega)]; omega
+      · by_cases h2 : m ≤ i ∧ i - m = N
+        · rw [if_neg h1, if_pos h2, if_pos (by omega), h2.2]; omega
+        · rw [if_neg h1, if_neg h2, if_neg (by omega)]; rfl
+    rw [e, rsum_add]
+    congr 1
+    by_cases hN : N ≤ i ∧ i ≤ N + d
+    · rw [rsum_single (d+1) (i - N) (F N) (fun m => m ≤ i ∧ i - m = N) (by omega)]
+      intro m hm
+      omega
+    · rw [hF N hN, rsum_eq_zero]
+      intro m _
+      split <;> rfl
+
+theorem dtdOff_eq_DtD (n d i t : Nat) (h : i + t < n) : dtdOff n d i t = DtD n d i (i + t) := by
+  show rsum (d+1) _ = rsum (n - d) (fun k => Dent d k i * Dent d k (i + t))
+  rw [rsum_window (n - d) d i (fun k => Dent d k i * Dent d k (i + t))]
+  · apply rsum_congr
+    intro m hm
+    by_cases h1 : m ≤ i ∧ i - m + d < n
+    · have h2 : m ≤ i ∧ i - m < n - d := by omega
+      rw [if_pos h2]
+      have e1 : Dent d (i - m) i = coef d m := by
+        unfold Dent
+        have e : i - (i - m) = m := by omega
+        rw [if_pos (by omega), e]
+      rw [e1]
+      by_cases h3 : m + t ≤ d
+      · have e2 : Dent d (i - m) (i + t) = coef d (m + t) := by
+          unfold Dent
+          have e : i + t - (i - m) = m + t := by omega
+          rw [if_pos (by omega), e]
+        rw [e2, if_pos (by omega)]
+      · have e2 : Dent d (i - m) (i + t) = 0 := by
+          unfold Dent
+          rw [if_neg (by omega)]
+        rw [e2, if_neg (by omega)]; simp
+    · rw [if_neg (by omega), if_neg (by omega)]
+  · intro k hk
+    unfold Dent
+    rw [if_neg (c := k ≤ i ∧ i - k ≤ d) (by omega)]; simp
+
+theorem DtD_symm (n d i j : Nat) : DtD n d i j = DtD n d j i := by
+  unfold DtD
+  congr 1
+  apply List.map_congr_left
+  intro k _
+  exact Int.mul_comm _ _
+
+theorem DtD_band (n d i j : Nat) (h : i + d < j) : DtD n d i j = 0 := by
+  show rsum _ _ = 0
+  apply rsum_eq_zero
+  intro k _
+  unfold Dent
+  by_cases hk : k ≤ i
+  · rw [if_neg (c := k ≤ j ∧ j - k ≤ d) (by omega)]; simp
+  · rw [if_neg (c := k ≤ i ∧ i - k ≤ d) (by omega)]; simp
+
+/-! ### clamp invariance -/
+
+theorem normB_clamp_le (K n n' c : Nat) (b : Int) (hb : -(K:Int) ≤ b ∧ b ≤ K)
+    (hn : 2 * K + 1 ≤ n) (hn' : 2 * K + 1 ≤ n') (hc : c < n) :
+    (normB b n ≤ c) ↔ (normB b n' ≤ (clamp K n n' c : Nat)) := by
+  unfold normB clamp
+  split <;> split <;> (try split) <;> omega
+
+theorem normB_clamp_lt (K n n' c : Nat) (b : Int) (hb : -(K:Int) ≤ b ∧ b ≤ K)
+    (hn : 2 * K + 1 ≤ n) (hn' : 2 * K + 1 ≤ n') (hc : c < n) :
+    ((c:Int) < normB b n) ↔ (((clamp K n n' c : Nat) : Int) < normB b n') := by
+  unfold normB clamp
+  split <;> split <;> (try split) <;> omega
+
+theorem clamp_lt (K n n' c : Nat) (hn : 2 * K + 1 ≤ n) (hn' : 2 * K + 1 ≤ n') (hc : c < n) :
+    clamp K n n' c < n' := by
+  unfold clamp; split <;> (try split) <;> omega
+
+theorem covers_clamp (K : Nat) (a : Assign) (ha : Assign.boundedB K a = true) (rows n n' r c : Nat)
+    (hn : 2 * K + 1 ≤ n) (hn' : 2 * K + 1 ≤ n') (hc : c < n) :
+    covers a rows n r c = covers a rows n' r (clamp K n n' c) := by
+  have hcl := clamp_lt K n n' c hn hn' hc
+  unfold Assign.boundedB at ha
+  unfold covers
+  cases hl : a.lo with
+  | none =>
+    cases hh : a.hi with
+    | none => simp [hc, hcl]
+    | some bh =>
+      simp [hl, hh] at ha
+      have := normB_clamp_lt K n n' c bh ha hn hn' hc
+      simp [this]
+  | some bl =>
+    cases hh : a.hi with
+    | none =>
+      simp [hl, hh] at ha
+      have h1 := normB_clamp_le K n n' c bl ha hn hn' hc
+      simp [hc, hcl, h1]
+    | some bh =>
+      simp [hl, hh] at ha
+      have h1 := normB_clamp_le K n n' c bl ha.1 hn hn' hc
+      have h2 := normB_clamp_lt K n n' c bh ha.2 hn hn' hc
+      simp [h1, h2]
 
 theorem bandAt_clamp (K : Nat) (init : Int) (tbl : List Assign) (ht : tbl.all (Assign.boundedB K) = true)
     (rows n n' r c : Nat) (hn : 2 * K + 1 ≤ n) (hn' : 2 * K + 1 ≤ n') (hc : c < n) :
-    bandAt init tbl rows n r c = bandAt init tbl rows n' r (clamp K n n' c) := by sorry
+    bandAt init tbl rows n r c = bandAt init tbl rows n' r (clamp K n n' c) := by
+  unfold bandAt
+  induction tbl generalizing init with
+  | nil => rfl
+  | cons a t ih =>
+    simp only [List.all_cons, Bool.and_eq_true] at ht
+    simp only [List.foldl]
+    rw [covers_clamp K a ht.1 rows n n' r c hn hn' hc]
+    exact ih _ ht.2
+
+theorem clamp_cond (K n n' d c r : Nat) (hK : 2 * d ≤ K) (hr : r ≤ d)
+    (hn : 2 * K + 1 ≤ n) (hn' : 2 * K + 1 ≤ n') (hc : c < n) :
+    (c + r < n) ↔ (clamp K n n' c + r < n') := by
+  unfold clamp; split <;> (try split) <;> omega
+
+theorem dtdOff_clamp (K n n' d c r : Nat) (hK : 2 * d ≤ K) (hr : r ≤ d)
+    (hn : 2 * K + 1 ≤ n) (hn' : 2 * K + 1 ≤ n') (hc : c < n) :
+    dtdOff n d c r = dtdOff n' d (clamp K n n' c) r := by
+  unfold dtdOff
+  congr 1
+  apply List.map_congr_left
+  intro m hm
+  have hm' : m ≤ d := by simp at hm; omega
+  have : (m ≤ c ∧ c - m + d < n ∧ m + r ≤ d) ↔
+      (m ≤ clamp K n n' c ∧ clamp K n n' c - m + d < n' ∧ m + r ≤ d) := by
+    unfold clamp
+    split <;> (try split) <;> omega
+  simp only [this]
 
 theorem specLower_clamp (K n n' d c r : Nat) (hK : 2 * d ≤ K) (hr : r ≤ d)
     (hn : 2 * K + 1 ≤ n) (hn' : 2 * K + 1 ≤ n') (hc : c < n) :
-    specLower n d r c = specLower n' d r (clamp K n n' c) := by sorry
+    specLower n d r c = specLower n' d r (clamp K n n' c) := by
+  unfold specLower
+  have hcond := clamp_cond K n n' d c r hK hr hn hn' hc
+  by_cases h : c + r < n
+  · rw [if_pos h, if_pos (hcond.mp h)]
+    exact dtdOff_clamp K n n' d c r hK hr hn hn' hc
+  · rw [if_neg h, if_neg (fun h' => h (hcond.mpr h'))]
 
 theorem specFull_clamp (K n n' d c r : Nat) (hK : 2 * d ≤ K) (hr : r ≤ 2 * d)
     (hn : 2 * K + 1 ≤ n) (hn' : 2 * K + 1 ≤ n') (hc : c < n) :
-    specFull n d r c = specFull n' d r (clamp K n n' c) := by sorry
+    specFull n d r c = specFull n' d r (clamp K n n' c) := by
+  unfold specFull
+  by_cases h : d ≤ r
+  · rw [if_pos h, if_pos h]
+    exact specLower_clamp K n n' d c (r - d) hK (by omega) hn hn' hc
+  · rw [if_neg h, if_neg h]
+    have hcond : (d - r ≤ c) ↔ (d - r ≤ clamp K n n' c) := by
+      unfold clamp; split <;> (try split) <;> omega
+    by_cases h2 : d - r ≤ c
+    · rw [if_pos h2, if_pos (hcond.mp h2)]
+      unfold dtdOff
+      congr 1
+      apply List.map_congr_left
+      intro m hm
+      have hm' : m ≤ d := by simp at hm; omega
+      have : (m ≤ c - (d - r) ∧ c - (d - r) - m + d < n ∧ m + (d - r) ≤ d) ↔
+          (m ≤ clamp K n n' c - (d - r) ∧ clamp K n n' c - (d - r) - m + d < n' ∧ m + (d - r) ≤ d) := by
+        unfold clamp
+        split <;> (try split) <;> omega
+      simp only [this]
+    · rw [if_neg h2, if_neg (fun h' => h2 (hcond.mpr h'))]
+
+theorem rows_entry {R n : Nat} {f g : Nat → Nat → Int}
+    (h : ((List.range R).map fun r => (List.range n).map fun c => f r c) =
+         ((List.range R).map fun r => (List.range n).map fun c => g r c)) :
+    ∀ r, r < R → ∀ c, c < n → f r c = g r c := by
+  intro r hr c hc
+  rw [List.map_inj_left] at h
+  have h1 := h r (List.mem_range.mpr hr)
+  rw [List.map_inj_left] at h1
+  exact h1 c (List.mem_range.mpr hc)
+
+theorem rows_of_entry {R n : Nat} {f g : Nat → Nat → Int}
+    (h : ∀ r, r < R → ∀ c, c < n → f r c = g r c) :
+    ((List.range R).map fun r => (List.range n).map fun c => f r c) =
+         ((List.range R).map fun r => (List.range n).map fun c => g r c) := by
+  apply List.map_congr_left
+  intro r hr
+  apply List.map_congr_left
+  intro c hc
+  exact h r (List.mem_range.mp hr) c (List.mem_range.mp hc)
+
+theorem active_bounded (t : DiagTable) (K : Nat) (lo : Bool)
+    (hb : t.assigns.all (Assign.boundedB K) = true) :
+    (t.active lo).all (Assign.boundedB K) = true := by
+  unfold DiagTable.active
+  rw [List.all_eq_true] at hb ⊢
+  intro a ha
+  exact hb a (List.mem_filter.mp ha).1
 
 /-- the ∀n statement for a generated table follows from finitely many decidable checks -/
 theorem table_eq_spec_of_decide (t : DiagTable) (d K : Nat) (hK : 2 * d ≤ K)
@@ -39,11 +404,119 @@ theorem table_eq_spec_of_decide (t : DiagTable) (d K : Nat) (hK : 2 * d ≤ K)
     (hrowsL : t.rowsLower = d + 1) (hrowsF : t.rowsFull = 2 * d + 1)
     (hbig : ∀ lo : Bool, t.toRows lo (2 * K + 1) = specRows (2 * K + 1) d lo)
     (hsmall : ∀ n, n < 2 * K + 1 → 2 * d + 1 ≤ n → ∀ lo : Bool, t.toRows lo n = specRows n d lo) :
-    ∀ n, 2 * d + 1 ≤ n → ∀ lo : Bool, t.toRows lo n = specRows n d lo := by sorry
+    ∀ n, 2 * d + 1 ≤ n → ∀ lo : Bool, t.toRows lo n = specRows n d lo := by
+  intro n hn lo
+  by_cases hlt : n < 2 * K + 1
+  · exact hsmall n hlt hn lo
+  · have hn1 : 2 * K + 1 ≤ n := by omega
+    have hact := active_bounded t K lo hb
+    have hB := hbig lo
+    cases lo with
+    | true =>
+      have hrows : t.rows true = d + 1 := by simp [DiagTable.rows, hrowsL]
+      unfold DiagTable.toRows specRows at hB ⊢
+      rw [hrows] at hB ⊢
+      simp only [if_true] at hB ⊢
+      have hE := rows_entry hB
+      apply rows_of_entry
+      intro r hr c hc
+      have hcl := clamp_lt K n (2 * K + 1) c hn1 (Nat.le_refl _) hc
+      unfold DiagTable.at
+      rw [bandAt_clamp K _ _ hact _ n (2 * K + 1) r c hn1 (Nat.le_refl _) hc,
+        specLower_clamp K n (2 * K + 1) d c r hK (by omega) hn1 (Nat.le_refl _) hc]
+      exact hE r hr _ hcl
+    | false =>
+      have hrows : t.rows false = 2 * d + 1 := by simp [DiagTable.rows, hrowsF]
+      unfold DiagTable.toRows specRows at hB ⊢
+      rw [hrows] at hB ⊢
+      simp only [Bool.false_eq_true, if_false] at hB ⊢
+      have hE := rows_entry hB
+      apply rows_of_entry
+      intro r hr c hc
+      have hcl := clamp_lt K n (2 * K + 1) c hn1 (Nat.le_refl _) hc
+      unfold DiagTable.at
+      rw [bandAt_clamp K _ _ hact _ n (2 * K + 1) r c hn1 (Nat.le_refl _) hc,
+        specFull_clamp K n (2 * K + 1) d c r hK (by omega) hn1 (Nat.le_refl _) hc]
+      exact hE r hr _ hcl
 
-theorem lowerToFull_spec (n d : Nat) : lowerToFull (specRows n d true) = specRows n d false := by sorry
+/-! ### layout conversions -/
 
-theorem drop_full_eq_lower (n d : Nat) : (specRows n d false).drop d = specRows n d true := by sorry
+theorem shiftRight_length (s : Nat) (row : List Int) : (shiftRight s row).length = row.length := by
+  simp [shiftRight]; omega
+
+theorem shiftRight_getElem? (s : Nat) (row : List Int) (c : Nat) (hc : c < row.length) :
+    (shiftRight s row)[c]? = if c < s then some 0 else row[c - s]? := by
+  unfold shiftRight
+  by_cases h : c < s
+  · rw [if_pos h, List.getElem?_append_left (by simp; omega)]
+    simp [List.getElem?_replicate]; omega
+  · rw [if_neg h, List.getElem?_append_right (by simp; omega)]
+    simp
+    have : min s row.length = s := by omega
+    rw [this, List.getElem?_take_of_lt (by omega)]
+
+theorem shiftRight_specLower (n d s : Nat) (hs0 : 0 < s) (hs : s ≤ d) :
+    shiftRight s ((List.range n).map fun c => specLower n d s c)
+      = (List.range n).map fun c => specFull n d (d - s) c := by
+  apply List.ext_getElem?
+  intro c
+  by_cases hc : c < n
+  · rw [shiftRight_getElem? _ _ _ (by simpa using hc)]
+    simp only [List.getElem?_map, List.getElem?_range hc, Option.map_some]
+    unfold specFull specLower
+    have h1 : ¬ d ≤ d - s := by omega
+    have h2 : d - (d - s) = s := by omega
+    rw [if_neg h1, h2]
+    by_cases h : c < s
+    · rw [if_pos h, if_neg (by omega)]
+    · rw [if_neg h, if_pos (by omega), List.getElem?_range (by omega)]
+      simp; omega
+  · rw [List.getElem?_eq_none (by simp [shiftRight_length]; omega),
+      List.getElem?_eq_none (by simp; omega)]
+
+theorem upper_entry (n d i : Nat) (hi : i < d) :
+   (((specRows n d true).tail.reverse).zipIdx.map fun (row, i) => shiftRight ((specRows n d true).length - 1 - i) row)[i]?
+    = some ((List.range n).map fun c => specFull n d i c) := by
+  simp [specRows]
+  refine ⟨(List.range n).map fun c => specLower n d (d - i) c, ?_, ?_⟩
+  · rw [List.getElem?_reverse (by simp; omega)]
+    simp
+    refine ⟨d - i, ?_, fun _ _ => rfl⟩
+    rw [List.getElem?_range (by omega)]
+    congr 1; omega
+  · have := shiftRight_specLower n d (d - i) (by omega) (by omega)
+    rw [this]
+    have h2 : d - (d - i) = i := by omega
+    rw [h2]
+
+theorem drop_full_eq_lower_aux (n d : Nat) : (specRows n d false).drop d = specRows n d true := by
+  unfold specRows
+  simp only [Bool.false_eq_true, if_false, if_true]
+  apply List.ext_getElem
+  · simp; omega
+  · intro i h1 h2
+    simp at h1 h2 ⊢
+    intro c hc
+    simp [specFull]
+
+theorem lowerToFull_spec (n d : Nat) : lowerToFull (specRows n d true) = specRows n d false := by
+  unfold lowerToFull
+  show _ ++ specRows n d true = _
+  rw [← List.take_append_drop d (specRows n d false), drop_full_eq_lower_aux]
+  congr 1
+  apply List.ext_getElem?
+  intro i
+  by_cases hi : i < d
+  · rw [upper_entry n d i hi, List.getElem?_take_of_lt hi]
+    simp [specRows]
+    rw [List.getElem?_range (by omega)]; rfl
+  · rw [List.getElem?_eq_none (by simp [specRows]; omega),
+      List.getElem?_eq_none (by simp [specRows]; omega)]
+
+theorem drop_full_eq_lower (n d : Nat) : (specRows n d false).drop d = specRows n d true :=
+  drop_full_eq_lower_aux n d
+
+/-! ### reconfiguration invariant -/
 
 /-- coherence of a `PenalizedSystem`: the stored diagonals are those of a fresh system in the
 object's current layout -/
@@ -51,16 +524,64 @@ def Coh (s : PSys) : Prop :=
   s.orig = some (if s.reversed then (penaltyDiags s.n s.diffOrder s.lower).reverse
                  else penaltyDiags s.n s.diffOrder s.lower)
 
-theorem reset_coh (s : PSys) (c : Cfg) (h : s.orig = none ∨ Coh s) : Coh (reset s c) := by sorry
+def resetClosed (n : Nat) (hp : Bool) (c : Cfg) : PSys :=
+  { n := n, hasPentapy := hp, orig := some (freshOrig n hp c), diffOrder := c.diffOrder,
+    lower := lowerOf hp c, reversed := reversedOf hp c, usingPentapy := usingPentapyOf hp c,
+    padding := c.padding }
+
+theorem reset_orig (s : PSys) (c : Cfg) (h : s.orig = none ∨ Coh s) :
+    (reset s c).orig = some (freshOrig s.n s.hasPentapy c) := by
+  rcases h with h | h
+  · simp [reset, h]
+  · unfold Coh at h
+    simp only [reset, h]
+    by_cases hd : s.diffOrder = c.diffOrder
+    · cases hr : s.reversed <;> cases hl : s.lower <;> cases hlo : lowerOf s.hasPentapy c <;>
+        simp [freshOrig, penaltyDiags, lowerToFull_spec, drop_full_eq_lower, hd, hlo]
+    · simp [hd]
+
+theorem reset_closed (s : PSys) (c : Cfg) (h : s.orig = none ∨ Coh s) :
+    reset s c = resetClosed s.n s.hasPentapy c := by
+  have h1 := reset_orig s c h
+  unfold reset at h1 ⊢
+  unfold resetClosed
+  simp only at h1 ⊢
+  rw [h1]
+
+theorem reset_coh (s : PSys) (c : Cfg) (h : s.orig = none ∨ Coh s) : Coh (reset s c) := by
+  rw [reset_closed s c h]
+  simp only [Coh, resetClosed, freshOrig]
+  rfl
+
+theorem foldl_inv (n : Nat) (hp : Bool) (cs : List Cfg) (s : PSys)
+    (h : s.orig = none ∨ Coh s) (hn : s.n = n) (hh : s.hasPentapy = hp) :
+    ((cs.foldl reset s).orig = none ∨ Coh (cs.foldl reset s)) ∧ (cs.foldl reset s).n = n ∧
+      (cs.foldl reset s).hasPentapy = hp := by
+  induction cs generalizing s with
+  | nil => exact ⟨h, hn, hh⟩
+  | cons c cs ih =>
+    simp only [List.foldl]
+    apply ih
+    · exact Or.inr (reset_coh s c h)
+    · simpa [reset] using hn
+    · simpa [reset] using hh
 
 theorem reset_eq_fresh (n : Nat) (hp : Bool) (cs : List Cfg) (c : Cfg) :
-    reset (cs.foldl reset (initSys n hp)) c = fresh n hp c := by sorry
+    reset (cs.foldl reset (initSys n hp)) c = fresh n hp c := by
+  obtain ⟨h1, h2, h3⟩ := foldl_inv n hp cs (initSys n hp) (Or.inl rfl) rfl rfl
+  rw [reset_closed _ c h1, h2, h3]
+  unfold fresh
+  rw [reset_closed _ c (Or.inl rfl)]
+  rfl
 
 theorem padDiagonals_lower (ab : List (List Int)) (p : Nat) (n : Nat) (hp : 0 < p) :
-    padDiagonals ab p true n = ab ++ List.replicate p (List.replicate n 0) := by sorry
+    padDiagonals ab p true n = ab ++ List.replicate p (List.replicate n 0) := by
+  simp [padDiagonals]
 theorem padDiagonals_full (ab : List (List Int)) (p : Nat) (n : Nat) (hp : 0 < p) :
-    padDiagonals ab p false n = List.replicate p (List.replicate n 0) ++ ab ++ List.replicate p (List.replicate n 0) := by sorry
+    padDiagonals ab p false n = List.replicate p (List.replicate n 0) ++ ab ++ List.replicate p (List.replicate n 0) := by
+  simp [padDiagonals]; omega
 theorem padDiagonals_nonpos (ab : List (List Int)) (p : Int) (lo : Bool) (n : Nat) (hp : p ≤ 0) :
-    padDiagonals ab p lo n = ab := by sorry
+    padDiagonals ab p lo n = ab := by
+  simp [padDiagonals, hp]
 
 end PbVerif.Lemmas
